@@ -40,19 +40,26 @@ Definition l21_norm (n : nat) (a : list T) : T :=
                                      (seq 0 n) (s_zero S))))
     (seq 0 n) (s_zero S).
 
-(* one step of the in-place Cholesky loop: column i of q from columns < i *)
-Definition chol_step (n : nat) (m : list T) (q : list T) (i : nat) : list T :=
-  let dsq := fold_left (fun d j => s_sub S d (s_mul S (mget n q i j) (mget n q i j))) (seq 0 i) (mget n m i i) in
-  let d := s_sqrt S dsq in
-  let q1 := mset n q i i d in
-  fold_left (fun qq j =>
-      let entry := fold_left (fun en k => s_sub S en (s_mul S (mget n qq i k) (mget n qq j k)))
-                             (seq 0 i) (mget n m i j) in
-      mset n qq j i (s_div S entry d))
-    (seq (i + 1) (n - (i + 1))) q1.
+(* The Cholesky loop.  The code fills q in place, column by column: iteration i reads only
+   columns < i (never written again) and writes column i.  The model keeps the list of finished
+   columns; the arithmetic of each entry is operation for operation that of the code
+   (sequential subtraction with k ascending, then one division by the diagonal entry). *)
+Definition chol_column (n : nat) (m : list T) (cols : list (list T)) (i : nat) : list T :=
+  let q k r := nth r (nth k cols []) (s_zero S) in        (* q[(r,k)] for a finished column k *)
+  let dsq := fold_left (fun d k => s_sub S d (s_mul S (q k i) (q k i))) (seq 0 i) (mget n m i i) in
+  let dg := s_sqrt S dsq in
+  map (fun j =>
+         if Nat.ltb j i then s_zero S
+         else if Nat.eqb j i then dg
+         else s_div S (fold_left (fun en k => s_sub S en (s_mul S (q k i) (q k j))) (seq 0 i) (mget n m i j)) dg)
+      (seq 0 n).
 
+Definition chol_columns (n : nat) (m : list T) : list (list T) :=
+  fold_left (fun cols i => cols ++ [chol_column n m cols i]) (seq 0 n) [].
+
+(* q as the row-major matrix the rest of the routine indexes *)
 Definition cholesky (n : nat) (m : list T) : list T :=
-  fold_left (chol_step n m) (seq 0 n) (mzeros n).
+  tabulate n (fun r c => nth r (nth c (chol_columns n m) []) (s_zero S)).
 
 Inductive matrix_error := ZeroDet | Unstable.
 
